@@ -82,8 +82,8 @@ def gen(rng, tier, info):
     # low-level operations per call (SPI buffers of one or two pixels; parallel buses), then a clear
     from props import c10
     tprobes = []
-    for _ in range(24 if tier == "quick" else 200):
-        pc, m, lw, lh, cmax = drawgen.config(rng, info, ifaces=(3, 3, 4, 5), models=SMALL)
+    for _ in range(36 if tier == "quick" else 240):
+        pc, m, lw, lh, cmax = drawgen.config(rng, info, ifaces=(3, 4, 4, 5, 5), models=SMALL)
         if pc["iface"] == 3:
             bpp = 2 if m["color"] == "Rgb565" else 3
             pc["ifparam"] = rng.choice([bpp, bpp + 1, 2 * bpp, 2 * bpp + 1])
@@ -98,9 +98,10 @@ def gen(rng, tier, info):
             op = ("di", drawgen.stream_inbounds(rng, lw, lh, cmax, rng.range(3, 12)))
         elif kind == 3:
             x, y, w, h = drawgen.inbounds_rect(rng, lw, lh, 40)
-            op = ("fs", (x, y, w, h), drawgen.color(rng, cmax))
+            # colours whose bus words are all equal take the strobe-only fast path of the parallel transport
+            op = ("fs", (x, y, w, h), rng.choice([0, cmax, drawgen.color(rng, cmax)]))
         else:
-            op = ("cl", drawgen.color(rng, cmax))
+            op = ("cl", rng.choice([0, cmax, drawgen.color(rng, cmax)]))
         pc["ops"] = [(-1, op), (-1, ("cl", drawgen.color(rng, cmax)))]
         pc["tags"] = ["call-probe"]
         pc["nontrivial"] = False
@@ -114,7 +115,14 @@ def gen(rng, tier, info):
         nops = len(re.findall(r"\b(ODc|OSpi|OPin|OWr|ORst)\b", parts[0]))
         if nops == 0:
             continue
-        ks = list(range(nops)) if tier == "thorough" and nops <= 400 else sorted(set([0, nops - 1, max(0, nops - 2)] + [rng.below(nops) for _ in range(5)]))
+        fill = pc["ops"][0][1][0] in ("fs", "cl")
+        if tier == "thorough" and nops <= 400:
+            ks = list(range(nops))
+        elif fill and pc["iface"] in (4, 5):
+            # every operation of a short fill, a dense sample of a long one (the strobe loop)
+            ks = list(range(nops)) if nops <= 60 else sorted(set([0, nops - 1, nops - 2] + [rng.below(nops) for _ in range(24)]))
+        else:
+            ks = sorted(set([0, nops - 1, max(0, nops - 2)] + [rng.below(nops) for _ in range(5)]))
         for k in ks:
             q = dict(pc)
             q["ops"] = [(k, pc["ops"][0][1]), pc["ops"][1]]
